@@ -407,7 +407,7 @@ def run_http_retention(case, rec):
     reply none of them may stay referenced by the library (whatever kind of request it was)"""
     from mc.harness.http import Integration
     kind, req = case['integration'], case['request']
-    integ = Integration(kind, '/api')
+    integ = Integration(kind, '/api', status_by_error=(lambda codes: 200 if not any(codes) else 207))
     refs = []
 
     def see(ctx):
@@ -430,6 +430,73 @@ def run_http_retention(case, rec):
             raise ValueError('x')
     integ.dispatcher.add(m, name='m', context='ctx')
     integ.dispatcher.add(bad, name='bad', context='ctx')
+    if req == 'varying-codes':
+        # ever new application error codes (the tuple of codes of a reply is handed to the status function): allocated memory stays flat
+        import tracemalloc
+        from pjrpc.common.exceptions import JsonRpcError as _E
+        if kind == 'aiohttp':
+            async def failing(code):
+                raise _E(code, 'application error')
+        else:
+            def failing(code):
+                raise _E(code, 'application error')
+        integ.dispatcher.add(failing, name='failing')
+
+        def one(k):
+            body = [{'jsonrpc': '2.0', 'method': 'failing', 'params': [100000 + k], 'id': 1}, {'jsonrpc': '2.0', 'method': 'failing', 'params': [200000 + 7 * k], 'id': 2}]
+            r = integ.post(json.dumps(body if k % 2 else body[0]).encode(), 'application/json')
+            return r.raised
+        tracemalloc.start()
+        try:
+            for k in range(200):
+                bad_ = one(k)
+            gc.collect()
+            m1 = tracemalloc.get_traced_memory()[0]
+            for k in range(200, 1200):
+                bad_ = one(k) or bad_
+                rec.transitions += 1
+            gc.collect()
+            m2 = tracemalloc.get_traced_memory()[0]
+        finally:
+            tracemalloc.stop()
+        if bad_:
+            rec.violation('C13:b:the %s integration raised while serving %s' % (kind, req), case, expected='a reply', observed=bad_)
+        elif m2 - m1 > 40000:
+            rec.violation('C13:b:memory allocated by the %s integration grows with the number of requests (ever new error codes)' % kind, case,
+                          expected='no growth over 1000 further requests (tolerance 40 kB)', observed='%d bytes' % (m2 - m1))
+        rec.counters['http runs growing by more than 20 kB / 1000 requests (tolerance 40 kB)'] += 1 if m2 - m1 > 20000 else 0
+        rec.traces += 1
+        rec.states += 1
+        rec.nontrivial_n += 1
+        rec.counters['http retention runs'] += 1
+        return m2 - m1 > 40000
+    if req == 'cancelled':
+        # the handler task is cancelled while the dispatch is suspended inside a method (client disconnect, timeout middleware)
+        import asyncio
+
+        async def slow(ctx):
+            see(ctx)
+            await asyncio.sleep(3600)
+        integ.dispatcher.add(slow, name='slow', context='ctx')
+        outcomes = set()
+        for k in range(20):
+            body = {'jsonrpc': '2.0', 'method': 'slow', 'id': k} if k % 2 == 0 else [{'jsonrpc': '2.0', 'method': 'slow', 'id': k}, {'jsonrpc': '2.0', 'method': 'm', 'id': 'b'}]
+            outcomes.add(integ.post_then_cancel(json.dumps(body).encode(), 'application/json', steps=3 + k % 3))
+            rec.transitions += 1
+        integ.post(json.dumps({'jsonrpc': '2.0', 'method': 'm', 'params': [1], 'id': 1}).encode(), 'application/json')
+        gc.collect()
+        alive = sum(1 for r in refs if r() is not None)
+        if outcomes != {'cancelled'} or len(refs) < 20:
+            rec.nondet.append('http retention aiohttp/cancelled: the requests were not cancelled inside the method (%r, %d contexts seen)' % (sorted(outcomes), len(refs)))
+            return 'unobserved'
+        if alive:
+            rec.violation('C13:b:request objects (contexts) retained by the aiohttp integration after cancelled requests', case,
+                          expected='0 of %d alive' % len(refs), observed=alive)
+        rec.traces += 1
+        rec.states += 1
+        rec.nontrivial_n += 1
+        rec.counters['http retention runs'] += 1
+        return alive
     bodies = {
         'call': {'jsonrpc': '2.0', 'method': 'm', 'params': [1], 'id': 1},
         'notif': {'jsonrpc': '2.0', 'method': 'm', 'params': [1]},
@@ -721,8 +788,10 @@ def gen_cases(ctx):
     for kind in ('sync', 'async'):
         for mode in ('fresh', 'replace'):
             yield dict(part='churn', kind=kind, mode=mode, cycles=60)
-    for integration in ('werkzeug', 'aiohttp'):
-        for req in ('call', 'notif', 'notif-batch', 'fail', 'mixed', 'alternate'):
+    for integration in ('werkzeug', 'aiohttp', 'flask'):
+        for req in ('call', 'notif', 'notif-batch', 'fail', 'mixed', 'alternate', 'varying-codes') + (('cancelled',) if integration == 'aiohttp' else ()):
+            if integration == 'flask' and req != 'varying-codes':
+                continue          # flask hands no context over: only the memory measure applies
             yield dict(part='http', integration=integration, request=req)
     ok_kinds = ['g1ok', 'g2ok', 'g1perr', 'v1ok', 'plain', 'unknown', 'g1boom']
     for n in (2, 3):
